@@ -16,6 +16,8 @@ replay = F.replay
 
 def run(ctx, model_ok, deep=False):
     F.run_suites(ctx, model_ok, deep, [
+        ("programs", S.programs_suite, S.falsify_programs,
+         "110 (quick) / 1500 (thorough) random programs of 55-70 API calls over 3 checkers, 3 builders, every pool key (with/without alg attribute, private/public), callbacks, clocks and both providers; every answer compared with the model; 60% of the verifies and generates are asked of a fresh twin configured by the same calls first", False),
         ("claims", S.claims_suite, S.falsify_accept,
          "threshold +-2 x leeway {-1,0,1,59,2^31,2^40} x clock {0,1,1e9,2^31-1,2^31,2^40}; int64 extremes; 11 JSON types per claim; string pairs; all configuration sequences up to length 2 (quick) / 3 (thorough) over an 11-call alphabet + random longer ones, each followed by 10 probe tokens; signed and unsigned; expected verdict computed from the property statement", False),
     ])
